@@ -1,4 +1,9 @@
 import Rs1090.Model.Basic
+/-!
+Line-protocol plumbing shared by the per-property model drivers (`driver_Cxx` executables).
+One operation per input line, one canonical answer per output line.  Unknown or malformed
+operations answer `bad-op` (never a default value).
+-/
 namespace Rs1090.Driver
 open Rs1090
 
@@ -16,5 +21,20 @@ def showOutcomeOptNat : Outcome (Option Nat) → String
 def showOptNat : Option Nat → String
   | some v => s!"ok {v}"
   | none => "err"
+
+def words (line : String) : List String :=
+  (line.trimAscii.toString.splitOn " ").filter (· ≠ "")
+
+partial def loop (handle : List String → Option String) (hin hout : IO.FS.Stream) : IO Unit := do
+  let line ← hin.getLine
+  if line.isEmpty then return ()
+  hout.putStrLn ((handle (words line)).getD "bad-op")
+  loop handle hin hout
+
+def runLoop (handle : List String → Option String) : IO Unit := do
+  let hin ← IO.getStdin
+  let hout ← IO.getStdout
+  loop handle hin hout
+  hout.flush
 
 end Rs1090.Driver
